@@ -216,6 +216,11 @@ func (s *LogStore) StoreLogs(logs []*raft.Log) error {
 // running and one waiting. If there is already one waiting so the chan is
 // blocked, we drop r.
 func (s *LogStore) triggerVerify(r VerificationReport) {
+	if s.reportFn == nil {
+		// Verification is bypassed: there is no verifier to receive the report and
+		// nothing was dropped either.
+		return
+	}
 	select {
 	case s.verifyCh <- r:
 	default:
